@@ -123,6 +123,9 @@ def units(tier):
     from .. import scale
     for n in scale.sizes(tier):
         us.append({"scale": n})
+    from .c03 import TEXT_ENCODINGS
+    for enc in TEXT_ENCODINGS:
+        us.append({"text": enc})
     return us
 
 
@@ -260,6 +263,24 @@ def run_term(t, tn, tier, r):
 
 def run_unit(unit, tier):
     r = UnitResult()
+    if unit.get("text"):
+        from .c03 import text_space, TEXTS
+        terms, frame, value_for, raws = text_space(unit["text"])
+        for t in terms:
+            d = T.mk(t)
+            tsig = "text:" + T.sig_of(t)
+            for s_ in TEXTS:
+                v = value_for(t, s_)
+                r.states += 1
+                if not admissible(t, v, v, {}):
+                    r.case(nontrivial=False, outcome="gap", transitions=0)
+                    continue
+                res, vs = check_value(t, d, v, v, {}, tsig)
+                r.case(nontrivial=True, outcome=res, transitions=2, validated=1)
+                for x in vs:
+                    r.violation(x["sig"], x["case"], x["detail"])
+        r.sample({"text_encoding": unit["text"], "framings": len(terms), "texts": len(TEXTS)})
+        return r
     if unit.get("scale"):
         from .c03 import scale_cases, srepr
         n = unit["scale"]
